@@ -173,14 +173,14 @@ PROPS = {
         "components": ["cancel", "pipeline"],
         "trusted_base": [
             "modelled, not verified: Go channel / select / WaitGroup / context semantics as Model/Engine.lean (see C08); Ctrl-C = step `cancelCmd`, enabled in every state, cancelling command ctx and derived ctx together; SIGINT delivery itself is runtime",
-            "generic-engine side only: the packet pipeline lemmas (Proofs/ConcPacket*.lean) are imported at the marked place of Props/C12.lean when available",
+            "packet side: the theorems C12_packet_no_panic / C12_packet_errc_closes are the C07 lemmas over Pipe.step (Proofs/ConcPacket*.lean); the pipeline component's cancel mode ties them to the code",
             "side conditions SingleCloser / CloseAfterSenders / GuardedOnReturnPath decided on descriptors regenerated by sxfacts/stages_engine.go",
         ],
         "assumptions": ["weak fairness: an enabled step of a return-path process is eventually taken (Go scheduler; select picks any ready case, so a worker may take further requests after the cancellation: the 5*|pending| term of the bound)",
                         "Scan, Write and limiter.Take() return (bounded by C09/C10 timeouts; with --rate a worker may sit in Take(), which is not ctx-aware, for up to W*window/N)",
                         "the harness's Scanner ignores ctx (worst case for the return time)"],
-        "level_text": "Lean theorems over Model/Engine.lean with Ctrl-C enabled in every state, by induction over Reachable, for every W, request list, producer script and schedule, i.e. every cancellation point: C12_no_panic (no send on a closed channel, no double close; errc closed => all W workers returned; results closed <=> copier returned), C12_progress (derived ctx cancelled and not returned => some return-path process can step), C12_rank_step + C12_bounded_return (ranking function: every return-path step strictly decreases it, no other step increases it after the cancel; along every execution at most rank steps), C12_rank_bound (rank <= 4*capRes + 2*capErr + 7*W + 5*|pending| + 12 = 4912 + 5*|pending| at the source's constants), C12_streams_end (returned => logger and drain returned, errc closed and empty, every sent error logged once), C12_whole_records (output grows only by one whole record per Write; only Put values are printed). Side conditions decided on regenerated descriptors. Tied to the code by cancelling the REAL engine + startScanEngine at the k-th Scan / Put / error / write for every k of short runs and with full buffers, in a child process (panic => recorded with goroutine dump), checking return time, complete lines, at-most-once counts.",
-        "level_note": "Partial: bounded STEPS under fairness, not bounded time (C12_full stated, not claimed); generic-engine side; packet side pending import. Trusted: Lean kernel; channel/select semantics of the transition system; sxfacts for descriptors.",
+        "level_text": "Lean theorems over Model/Engine.lean with Ctrl-C enabled in every state, by induction over Reachable, for every W, request list, producer script and schedule, i.e. every cancellation point: C12_no_panic (no send on a closed channel, no double close; errc closed => all W workers returned; results closed <=> copier returned), C12_progress (derived ctx cancelled and not returned => some return-path process can step), C12_rank_step + C12_bounded_return (ranking function: every return-path step strictly decreases it, no other step increases it after the cancel; along every execution at most rank steps), C12_rank_bound (rank <= 4*capRes + 2*capErr + 7*W + 5*|pending| + 12 = 4912 + 5*|pending| at the source's constants), C12_streams_end (returned => logger and drain returned, errc closed and empty, every sent error logged once), C12_whole_records (output grows only by one whole record per Write; only Put values are printed). Side conditions decided on regenerated descriptors. Tied to the code by cancelling the REAL engine + startScanEngine at the k-th Scan / Put / error / write for every k of short runs and with full buffers, in a child process (panic => recorded with goroutine dump), checking return time, complete lines, at-most-once counts. Packet side: the REAL NewPacketMultiGenerator/NewSender/PacketEngine pipeline cancelled at the k-th consumed request / started write / consumed error for every k of short runs (plain, slow writer, writer blocked until the error stream ended, error consumer starting at the cancel) and with every error channel full (> 300 errors, stalled consumer), in a child process: no panic, merged error channel closed within 2 s of the cancel, frames and errors at most once and byte-exact, and the observed event trace with the cancel event accepted by Pipe.step (search over the internal steps).",
+        "level_note": "Partial: bounded STEPS under fairness, not bounded time (C12_full stated, not claimed). After a cancel the packet sender may stay blocked on its unguarded `errc <- err` when errc is full (done is then never closed; startScanEngine does not wait for it): modelled (gSenderErr = false), observed (d=0 in fullerr cases), not a violation of the property. Trusted: Lean kernel; channel/select semantics of the transition system; sxfacts for descriptors.",
     },
     "C07": {
         "modules": ["SxVerif.Props.C07"],
